@@ -12,7 +12,8 @@ import (
 )
 
 // C09: descriptive statistics of slices and Samples, Sort/Copy histories, vec helpers.
-//   Kind 0: one sample, every statistic.   Kind 1: history of Sort/Copy/Poke/Query.   Kind 2: vec.
+//
+//	Kind 0: one sample, every statistic.   Kind 1: history of Sort/Copy/Poke/Query.   Kind 2: vec.
 type c09Op struct {
 	T int `json:"t"` // 0 Sort(I) 1 Copy(I) 2 Poke(I,J,V) 3 Query(I)
 	I int `json:"i"`
